@@ -231,6 +231,9 @@ func checkC02(p *Prog, c *Check) {
 			if spec.will == 1 {
 				wp = will
 			}
+			if spec.will == 3 {
+				wp, _ = p.willFor(spec)
+			}
 			if spec.will == 2 {
 				wp = fullWill
 				if wp == nil {
@@ -504,9 +507,11 @@ func (w *specWalk) field(sf specField, reasonPresent *bool) {
 				return false
 			}
 			if pp, ok := p.fieldPathOf(w.will.Recv, "Publish", "Payload"); ok {
-				if v, ok := w.st.Mem[pp]; ok {
-					return v.addr == e.Val.addr && v.i == e.Val.i
+				v, ok := w.st.Mem[pp]
+				if !ok || v.i == 0 {
+					return e.Val.i == 0 // a will without payload: the empty binary field is still written
 				}
+				return v.addr == e.Val.addr && v.i == e.Val.i
 			}
 			return false
 		}
